@@ -508,6 +508,10 @@ func init() {
 	// ---------------- misc ----------------
 	I["github.com/ansible/receptor/pkg/randstr.RandomString"] = func(t *Thread, fn *ssa.Function, a []Value) Value {
 		n := t.concreteInt(a[0].(*Term), "RandomString length")
+		if q, ok := t.ex.notes["_random"].([]*StrVal); ok && len(q) > 0 {
+			t.ex.notes["_random"] = q[1:]
+			return q[0]
+		}
 		noteStub("randstr.RandomString(n) = arbitrary n alphanumeric bytes")
 		if n < 0 {
 			return &StrVal{}
